@@ -1,4 +1,4 @@
-import MiniconfVerif.Lemmas.GenTieExact
+import MiniconfVerif.Lemmas.GenTieLoop
 import MiniconfVerif.Lemmas.IterRootGen
 import MiniconfVerif.Lemmas.GenTie
 import MiniconfVerif.Lemmas.IterRoot
@@ -258,5 +258,49 @@ theorem source_exact_size_is_model :
       if m.maxDepth ≤ D then .val ⟨NodeIter.default D, m.count⟩ else .panic "NodeIter.exact_size: assert! failed") :=
   ⟨fun f nextI n i c => by rw [exactRun_tie f nextI n i c, exactCountsM_eq],
    fun s hwf D ks it h => exact_size_tie s hwf D ks it h, exact_size_fresh_tie⟩
+
+open MiniconfVerif.Gen MiniconfVerif.Gen.Core MiniconfVerif.GenTie in
+/-- **The translated iterator run as written is the model's iterator**: the `loop` of `NodeIter::next` iterated until it
+returns (`runLoop`) is `IterSt.next` for every fuel; `n` calls of it are `IterSt.poll`; the translated `ExactSize` around
+it holds the model's `exactCounts` — for every type, target, depth limit and iterator state with `D` slots, given that the
+two `M::transcode` calls return what the model's transcoding returns. -/
+theorem source_iteration_is_model (s : Schema) (D : Nat) (fresh : Target)
+    (tcN : List Nat → Except Traversal (Target × Node)) (tcU : List Nat → Except Traversal (Unit × Node))
+    (hN : ∀ st, tcToGen (s.transcode (stateKeys st) fresh) = some (tcN st))
+    (hU : ∀ st, tcUToGen (s.transcode (stateKeys st) .unit) = some (tcU st)) :
+    (∀ (fuel : Nat) (it : IterSt), it.state.length = D →
+      (runLoop (NodeIter.next_body D tcN tcU) fuel (itToGen it)).map stepOfP =
+        (it.next s D fresh fuel).map IterStep.erase) ∧
+    (∀ (n : Nat) (it : IterSt), it.state.length = D →
+      innerPolled itemOf (nextG D tcN tcU) n (itToGen it) = it.poll s D fresh n) ∧
+    (∀ (n : Nat) (it : IterSt), it.state.length = D → ∀ c : Nat,
+      exactRun (nextG D tcN tcU) n ⟨itToGen it, c⟩ = exactCounts (it.poll s D fresh n) c) :=
+  ⟨next_tie s D fresh tcN tcU hN hU, poll_tie s D fresh tcN tcU hN hU,
+   fun n it hlen c => by rw [exact_over_next_tie s D fresh tcN tcU hN hU n it hlen c, exactCountsM_eq]⟩
+
+open MiniconfVerif.Gen MiniconfVerif.Gen.Core MiniconfVerif.GenTie in
+/-- End to end for the translated code: polling `NodeIter::default()` **as translated** `n` times, on a well-formed type
+with `D ≥ max_depth` and an accepting target, returns exactly the first `n` leaves in order and `None` from then on, and
+the translated `ExactSize` started at `Metadata::count` reports the number of leaves not yet yielded after every call. -/
+theorem source_nodes_enumerate_leaves (s : Schema) (hwf : s.WF) (hsm : s.Small) (D : Nat) (hD : s.maxDepth ≤ D)
+    (fresh : Target) (hacc : Accepts s fresh)
+    (tcN : List Nat → Except Traversal (Target × Node)) (tcU : List Nat → Except Traversal (Unit × Node))
+    (hN : ∀ st, tcToGen (s.transcode (stateKeys st) fresh) = some (tcN st))
+    (hU : ∀ st, tcUToGen (s.transcode (stateKeys st) .unit) = some (tcU st)) (n : Nat) :
+    innerPolled itemOf (nextG D tcN tcU) n (NodeIter.default D) =
+      ((s.leaves.map fun p => Polled.item (leafItem s fresh p)) ++ List.replicate n Polled.finished).take n ∧
+    exactRun (nextG D tcN tcU) n ⟨NodeIter.default D, s.meta.count⟩ =
+      (List.range n).map fun k => some (s.leaves.length - (k + 1)) := by
+  have hlen : (IterSt.init D).state.length = D := by simp [IterSt.init]
+  have h := source_iteration_is_model s D fresh tcN tcU hN hU
+  refine ⟨?_, ?_⟩
+  · have := h.2.1 n (IterSt.init D) hlen
+    rw [show itToGen (IterSt.init D) = NodeIter.default D from rfl] at this
+    rw [this]
+    exact (full_depth_exact s hwf hsm D hD fresh hacc n).1
+  · have := h.2.2 n (IterSt.init D) hlen s.meta.count
+    rw [show itToGen (IterSt.init D) = NodeIter.default D from rfl] at this
+    rw [this]
+    exact exact_size_remaining s hwf hsm D hD fresh hacc n
 
 end MiniconfVerif.C11
